@@ -2,12 +2,13 @@
 REG_DRAFT = dict(
     engine='E1-enum',
     technique='bounded-exhaustive enumeration of syntax trees x layouts x character classes (non-ASCII, multi-line string literals, CRLF), single-piece edits, diagnostic / exception / session programs; invariant oracle on every position the real code reports',
-    text='Every program of a depth-1 production set, the representative set and the definition-level set, in its plain form, with every string literal made multi-line (each literal position and all), and with non-ASCII text in strings and comments, under every layout with <=1 gap deviating from canonical over a 10-separator alphabet (the 8 of C17 plus a non-ASCII line comment and CRLF); every single-piece delete/insert/replace of the representative programs (parse errors); 25 programs that produce check diagnostics with notes and fixes and 14 that raise at run time, each under the same variants and layouts, through the check, `run` and JSON-session entry points; `garden check --json` and `garden reftest-position` through the real CLI on a bounded subset. Oracle on every position obtained (AST nodes, comments, parse errors and notes, diagnostics, notes, fixes, exceptions, session responses, CLI output): 0 <= start <= end <= len; both on UTF-8 character boundaries; line_number = number of LF before start; column = start - line start (bytes, the unit position.rs and the lexer use); end_line_number / end_column likewise for the end offset (when the end offset sits just after a newline the line of the last byte is accepted too); check --json line numbers are the 0-based ones plus 1. Exhaustive within these bounds.',
+    text='Every program of a depth-1 production set, the representative set and the definition-level set, in its plain form, with every string literal made multi-line (each literal position and all), and with non-ASCII text in strings and comments, under every layout with <=1 gap deviating from canonical over a 6-separator alphabet (glued, newline, newline+indent, line comment, tab, CRLF; quick) / a 10-separator alphabet (the 8 of C17 plus a non-ASCII line comment and CRLF; thorough); every single-piece delete/insert/replace of the representative programs (parse errors); 25 programs that produce check diagnostics with notes and fixes and 14 that raise at run time, each under the same variants and layouts, through the check, `run` and JSON-session entry points; `garden check --json` and `garden reftest-position` through the real CLI on a bounded subset. Oracle on every position obtained (AST nodes, comments, parse errors and notes, diagnostics, notes, fixes, exceptions, session responses, CLI output): 0 <= start <= end <= len; both on UTF-8 character boundaries; line_number = number of LF before start; column = start - line start (bytes, the unit position.rs and the lexer use); end_line_number / end_column likewise for the end offset (when the end offset sits just after a newline the line of the last byte is accepted too); check --json line numbers are the 0-based ones plus 1. Exhaustive within these bounds.',
     note='Positions that point into another file (prelude) are checked against that file when it is in the repository, else counted. The LSP line/character mapping is C29. Trees deeper than the sets and more than one deviating gap are not covered.',
     design_ref='DESIGN.md §6 C23',
 )
 
 import bisect
+import time
 import concurrent.futures
 import json
 import os
@@ -116,6 +117,7 @@ class Judge:
         self.foreign = 0
         self.node_cache = {}
         self.found = {}
+        self.t_start = time.time()
 
     def node_positions(self, S):
         """The positions of the AST nodes and comments of a source and the spans of its multi-line tokens
@@ -171,25 +173,41 @@ class Judge:
             self.ctx.violations[sig]["count"] = n
 
     def other(self, path):
-        """Source of another file a position may point into (prelude and friends live in the repository)."""
+        """Source of another file a position may point into (prelude and friends are embedded in the binary from the repository).
+        Only trusted when the file is not newer than the binary that embeds it."""
         name = os.path.basename(path)
         if name not in self.other_files:
             cand = os.path.join(REPO, "src", name)
-            self.other_files[name] = Src(open(cand, encoding="utf-8").read()) if name.startswith("__") and os.path.exists(cand) else None
+            ok = name.startswith("__") and os.path.exists(cand) and os.path.getmtime(cand) <= os.path.getmtime(self.ctx.binary)
+            self.other_files[name] = Src(open(cand, encoding="utf-8").read()) if ok else None
         return self.other_files[name]
 
-    def pos(self, source, p, S, own_paths, detail):
-        """Check one position. own_paths: path names that denote S."""
+    def other_is_stale(self, path):
+        """The repository file or the binary changed while the check was running (another session committed / rebuilt)."""
+        cand = os.path.join(REPO, "src", os.path.basename(path))
+        try:
+            return os.path.getmtime(cand) > self.t_start or os.path.getmtime(self.ctx.binary) > self.t_start
+        except OSError:
+            return True
+
+    def pos(self, source, p, S, own_paths, detail, name=None):
+        """Check one position. own_paths: path names that denote S. name: the identifier the position must cover, when known."""
         path = p.get("path")
-        if path is not None and os.path.basename(path) not in own_paths:
+        foreign = path is not None and os.path.basename(path) not in own_paths
+        if foreign:
             S2 = self.other(path)
             if S2 is None:
                 self.foreign += 1
                 return
             S, source = S2, source + " (position in " + os.path.basename(path) + ")"
+        bad = check_pos(p, S)
+        if foreign and (bad or (name is not None and S.b[p["start_offset"]:p["end_offset"]].decode("utf-8", "replace") != name)):
+            # positions into embedded files are only judged when the repository copy is provably the embedded text
+            if self.other_is_stale(path) or (name is not None and S.b[p["start_offset"]:p["end_offset"]].decode("utf-8", "replace") != name):
+                self.foreign += 1
+                return
         self.n += 1
         self.by_source[source.split(" `")[0]] = self.by_source.get(source.split(" `")[0], 0) + 1
-        bad = check_pos(p, S)
         cls = char_class(p, S) if not bad or "beyond" not in bad[0] else "plain"
         self.classes[cls] = self.classes.get(cls, 0) + 1
         if bad:
@@ -303,7 +321,7 @@ def variants_of(ctx, bases, j_outcome):
 def alphabet_for(b, reduced=False):
     na = "non-ascii" in b.variant
     if reduced:
-        return ["", "\n    ", NA_COMMENT if na else " // c\n", "\t", CRLF]
+        return ["", "\n", "\n    ", NA_COMMENT if na else " // c\n", "\t", CRLF]
     return [g if not (na and g == " // c\n") else NA_COMMENT for g in layout.GAPS] + ([" // c\n"] if na else [NA_COMMENT]) + [CRLF]
 
 
@@ -332,7 +350,6 @@ OWN = {"main.gdn", "__user.gdn"}
 
 
 def run(ctx):
-    import time
     t0 = time.time()
     J = Judge(ctx)
     quick = ctx.quick
@@ -361,7 +378,7 @@ def run(ctx):
     for gname, bases in groups:
         plain, ml, na = variants_of(ctx, bases, ctx.outcome)
         ctx.bound(f"{gname}: programs (plain / multi-line string variants / non-ascii variants)", [len(plain), len(ml), len(na)])
-        for b, d, t, r in explore_alpha(ctx, plain + ml + na, ["positions", "comments"]):
+        for b, d, t, r in explore_alpha(ctx, plain + ml + na, ["positions", "comments"], reduced=quick):
             n_cases += 1
             n_jobs += 1
             if "parse_errors" not in r:
@@ -572,12 +589,12 @@ def run(ctx):
         for p, g in zip(b.pieces, b.gaps):
             off += len(g.encode("utf-8"))
             if b.classes[len(offs)] == "tok" and (p[0].isalpha() or p[0] == "_") and p not in layout.KEYWORDS:
-                gcases.append((b, t, off))
+                gcases.append((b, t, off, p))
             offs.append(off)
             off += len(p.encode("utf-8"))
 
     def cli_goto(arg):
-        i, (b, t, off) = arg
+        i, (b, t, off, _) = arg
         path = ctx.tmpfile(f"pos/g{i}.gdn", t)
         rc, out, err = ctx.cli(["reftest-position", path, str(off)], stdin=b"", timeout=120)
         os.remove(path)
@@ -586,7 +603,7 @@ def run(ctx):
     with concurrent.futures.ThreadPoolExecutor(16) as ex:
         results = list(ex.map(cli_goto, enumerate(gcases)))
     n_goto = 0
-    for (b, t, off), (rc, out, err, fname) in zip(gcases, results):
+    for (b, t, off, ident), (rc, out, err, fname) in zip(gcases, results):
         n_cases += 1
         n_jobs += 1
         if rc != 0:
@@ -597,7 +614,8 @@ def run(ctx):
             continue
         p = json.loads(out.splitlines()[-1])
         n_goto += 1
-        J.pos("go-to-definition", p, Src(t), {fname}, {"variant": b.variant, "src": t, "offset": off, "cli": "garden reftest-position <file with src> <offset>"})
+        J.pos("go-to-definition", p, Src(t), {fname}, {"variant": b.variant, "src": t, "offset": off, "identifier": ident, "cli": "garden reftest-position <file with src> <offset>"},
+              name=ident)
     ctx.outcome("go-to-definition answers", n_goto)
     ctx.bound("go-to-definition offsets", len(gcases))
     if n_goto < 10:
@@ -614,11 +632,12 @@ def run(ctx):
     if not need <= J.classes.keys() or n_ml == 0 or n_na == 0:
         raise Machinery(f"vacuous: character classes seen {sorted(J.classes)} multi-line layouts={n_ml} non-ascii layouts={n_na}")
     ctx.add(states=n_cases, transitions=n_jobs, evaluations=J.n, nontrivial=J.n - J.classes.get("plain", 0))
-    ctx.bound("gap alphabet", [layout.GAP_NAME.get(g, g) for g in layout.GAPS] + ["non-ascii comment", "crlf"])
+    ctx.bound("gap alphabet", ["glued", "newline", "newline+indent", "comment (non-ascii in the non-ascii variants)", "tab", "crlf"] if quick else
+              [layout.GAP_NAME.get(g, g) for g in layout.GAPS] + ["non-ascii comment", "crlf"])
     ctx.sample({"source": "ast node", "src": 'let v = "a\n  x"\n', "checked": "every node position: offsets in range, on char boundaries, line/column = offsets"})
     ctx.sample({"source": "diagnostic + fix", "src": DIAG[0][1]})
     ctx.sample({"source": "session response", "src": RUN[1][1]})
     return ("every program of the sets (plain, each/all string literals multi-line, non-ASCII strings and comments) under the canonical layout and every single-gap deviation over the "
-            "10-separator alphabet; single-piece edits; diagnostic, run-time and session programs under the same variants; CLI `check --json` and `reftest-position` on bounded subsets. "
+            "6- (quick) / 10-separator (thorough) alphabet; single-piece edits; diagnostic, run-time and session programs under the same variants; CLI `check --json` and `reftest-position` on bounded subsets. "
             "Every position in every answer is checked against the byte offsets of the text that was sent. Non-trivial = the position lies on a line with a multi-line string literal, "
             "non-ASCII text or CR, or spans lines.")
